@@ -2,7 +2,8 @@
 # Run every seeded change under /verif/seeded against the check of the property it breaks (quick tier).
 # Writes /verif/seeded/RESULTS.tsv : seed, property, detected(yes/no/patch-failed), seconds, signature line
 cd /verif || exit 2
-out=/verif/seeded/RESULTS.tsv
+final=/verif/seeded/RESULTS.tsv
+out=$(mktemp /tmp/run-seeds.XXXXXX)
 echo -e "seed\tproperty\tdetected\tseconds\tfirst_failure" > $out
 for d in ${SEEDS:-seeded/*/}; do
   s=$(basename $d)
@@ -23,4 +24,20 @@ for d in ${SEEDS:-seeded/*/}; do
   echo -e "$s\t$prop\t$det\t$((t1-t0))\t$first" >> $out
 done
 git -C /repo status --short
+# merge: rows of the seeds just run replace the rows of the same seeds in the committed table
+python3 - "$out" "$final" <<'PY'
+import sys
+new, final = sys.argv[1], sys.argv[2]
+rows = {}
+hdr = "seed\tproperty\tdetected\tseconds\tfirst_failure"
+for path in (final, new):
+    try:
+        for line in open(path, errors='replace').read().split('\n')[1:]:
+            if line.strip():
+                rows[line.split('\t')[0]] = line
+    except FileNotFoundError:
+        pass
+open(final, 'w').write(hdr + '\n' + '\n'.join(rows[k] for k in sorted(rows)) + '\n')
+PY
 cat $out | cut -c1-200
+rm -f $out
